@@ -30,7 +30,7 @@ type verifNet struct {
 	syncCount, eagerCount int
 	// what the transport saw, per target node, since the last reset of the counters
 	pushRefused, pushAccepted, syncAnswered, syncRefused []int
-	txSeq                                               []int
+	txSeq                                                []int
 	// accepted[i]: transactions node i accepted through addTransaction, in order
 	accepted [][]string
 }
